@@ -12,7 +12,7 @@ for pid, c in sorted(src['checks'].items()):
         'evidence_file': '/verif/evidence/%s.json' % pid,
         'replay_cmd_template': 'cat {path}',
         'engine': c.get('engine', 'verus'),
-        'level_claimed': {'category': 'proof', 'text': c['text'], 'design_ref': c.get('design_ref', 'DESIGN.md §5 ' + pid)},
+        'level_claimed': {'category': c.get('category', 'proof'), 'text': c['text'], 'design_ref': c.get('design_ref', 'DESIGN.md §5 ' + pid)},
         'level_note': c['note'],
         'technique': c['technique'],
     })
